@@ -632,6 +632,61 @@ func vVolume(n, repeats int) []*vop {
 	return ops
 }
 
+var vInlineProbes, vInlineSerial int32
+
+// vInlineProbe: returns "" when the machine with the inlining specification follows the edit of the inlined file
+func vInlineProbe(v *vsvc) (why string) {
+	defer func() {
+		if r := recover(); r != nil {
+			why = fmt.Sprintf("panic: %v", r)
+		}
+	}()
+	n := atomic.AddInt32(&vInlineSerial, 1)
+	name, js := fmt.Sprintf("zz-inl%d", n), fmt.Sprintf("zz-inl%d.js", n)
+	yaml := "name: " + name + "\npatternsyntax: json\nnodes:\n  start:\n    branching:\n      type: message\n      branches:\n      - pattern: |\n          {\"probe\":\"?p\"}\n        target: note\n" +
+		"  note:\n    action:\n      interpreter: ecmascript\n      source: %inline(\"" + js + "\")\n    branching:\n      branches:\n      - target: start\n"
+	dir := v.s.specDir
+	write := func(version int) error {
+		return os.WriteFile(filepath.Join(dir, js), []byte(fmt.Sprintf("\"return {v: %d};\"", version)), 0644)
+	}
+	if err := write(1); err != nil {
+		return err.Error()
+	}
+	defer os.Remove(filepath.Join(dir, js))
+	if err := os.WriteFile(filepath.Join(dir, name+".yaml"), []byte(yaml), 0644); err != nil {
+		return err.Error()
+	}
+	defer os.Remove(filepath.Join(dir, name+".yaml"))
+	mid := "zz-inline-machine"
+	if err := v.s.AddMachine(v.ctx, name, mid, "", nil); err != nil {
+		return "add: " + err.Error()
+	}
+	defer v.s.RemMachine(v.ctx, mid)
+	seen := func() interface{} {
+		if r, have := v.memory()[mid]; have {
+			return r.Bs["v"]
+		}
+		return "<no machine>"
+	}
+	msg := map[string]interface{}{"to": mid, "probe": true}
+	if _, err := v.s.Process(v.ctx, msg, nil); err != nil {
+		return "process: " + err.Error()
+	}
+	if got := seen(); got != 1.0 {
+		return fmt.Sprintf("first version: v = %v", got)
+	}
+	if err := write(2); err != nil { // same length, only the inlined file changes
+		return err.Error()
+	}
+	if _, err := v.s.Process(v.ctx, msg, nil); err != nil {
+		return "process: " + err.Error()
+	}
+	if got := seen(); got != 2.0 {
+		return fmt.Sprintf("after the inlined file was edited: v = %v (the machine still runs what was inlined before)", got)
+	}
+	return ""
+}
+
 func quietLog() func() {
 	w, verbose := log.Writer(), Verbose
 	log.SetOutput(io.Discard)
@@ -706,6 +761,16 @@ func runSeq(t *testing.T, out *vout, ops []*vop, kind string) {
 	out.count(fmt.Sprintf("length:%02d", len(ops)/4*4))
 	if wasDown {
 		out.count("sequence-with-store-down")
+	}
+	// at the end of (the first fifty) sequences whose store is up: a specification that inlines a file (%inline("...")) is
+	// what its files say when it is loaded - also after the inlined file alone was edited while the service runs.  A
+	// failure is reported as a call that panicked (a response the model never gives).
+	if v.isUp && atomic.AddInt32(&vInlineProbes, 1) <= 50 {
+		if why := vInlineProbe(v); why != "" {
+			out.count("inline-probe-failed")
+			steps = append(steps, fmt.Sprintf("mk_sstep RGet PPanic %s %s", vMmap(v.memory()), vMmap(v.stored())))
+			sample = append(sample, vstepSample{Op: &vop{Kind: "get"}, Resp: "inline-probe: " + why})
+		}
 	}
 	out.add("(mk_seqcase "+vList(steps)+")", key.String(), nontrivial, map[string]interface{}{"kind": kind, "steps": sample})
 }
